@@ -54,8 +54,12 @@ type params struct {
 	NoVerify  bool   `json:"hash_verification_off,omitempty"`
 	// HugeLeaves > 0: the bundle holds one file of that many 2 MiB leaves plus HugeTail bytes (4 GiB and more), stored
 	// in a sparse store; it is mounted pre-downloaded and streamed and read around leaf boundaries
-	HugeLeaves int `json:"huge_file_leaves,omitempty"`
-	HugeTail   int `json:"huge_file_tail_bytes,omitempty"`
+	// StaleStaging: the staging directory of a pre-downloaded mount already holds files at some of the bundle's paths
+	// (left by the mount of an earlier version): same length with other bytes, or another length. The mount may be
+	// refused; if it is accepted it must serve the bundle's bytes.
+	StaleStaging bool `json:"staging_area_used_before,omitempty"`
+	HugeLeaves   int  `json:"huge_file_leaves,omitempty"`
+	HugeTail     int  `json:"huge_file_tail_bytes,omitempty"`
 }
 
 var parts = []string{"a", "b", "data", "file with space", "ünï-cødé", "x.y.z", ".dot", "UPPER", "日本", "a-b", "a_b", "0", "long-name-to-make-the-dirent-longer-than-usual"}
@@ -153,9 +157,15 @@ func gen17(seed int64, tier string) []drv.Case {
 			p.BodyFault = []string{"unexpected EOF", "connection reset by peer", "stream error: stream ID 7; INTERNAL_ERROR; received from peer"}[r.Intn(3)]
 			p.NoVerify = r.Intn(3) > 0
 		}
+		if !p.Streamed && p.BodyFault == "" && p.Via == "upload" && nf > 0 && i%2 == 0 {
+			p.StaleStaging = true
+		}
 		cls := "streamed"
 		if !p.Streamed {
 			cls = "pre-downloaded"
+		}
+		if p.StaleStaging {
+			cls += "+used-staging"
 		}
 		if p.BodyFault != "" {
 			cls += "+transfer-faults"
@@ -399,12 +409,34 @@ func run17(c drv.Case, res *drv.Result) {
 		faultsLeft = func() bool { fmu.Lock(); defer fmu.Unlock(); return len(faulted) < nblobs }
 		_ = faultsLeft
 	}
+	if p.StaleStaging {
+		stale := coreh.Tree{}
+		for i, f := range p.Files {
+			switch i % 3 {
+			case 0:
+				stale[f.Path] = gen.Bytes(p.Seed+1, "stale-"+f.Path, f.Len) // same length, other bytes (same bytes when empty)
+			case 1:
+				if p.Seed%2 == 0 {
+					continue // this staging area only holds files of the same length as the bundle's
+				}
+				stale[f.Path] = gen.Bytes(p.Seed+1, "stale-"+f.Path, f.Len+1+i%5)
+			}
+		}
+		must(coreh.WriteDir(dest, stale))
+		res.Stat("stale_files_in_staging", int64(len(stale)))
+	}
 	b := env.ReadBundle(mountActor, "r", id, coreh.LocalFS(dest), 4)
 	opts := []dfuse.Option{dfuse.Logger(coreh.Nop), dfuse.Streaming(p.Streamed), dfuse.VerifyHash(!p.NoVerify)}
 	if p.Streamed {
 		opts = append(opts, dfuse.CacheSize(p.Cache), dfuse.Prefetch(p.Prefetch))
 	}
 	rofs, err := dfuse.NewReadOnlyFS(b, opts...)
+	if err != nil && p.StaleStaging {
+		// refusing to mount over a used staging area is not a wrong answer
+		res.Stat("mounts_refused_on_used_staging", 1)
+		res.Nontrivial = true
+		return
+	}
 	if err != nil {
 		res.Violate("mount-failed", cls(p), "NewReadOnlyFS: %v", err)
 		return
@@ -726,6 +758,9 @@ func countFDs() int {
 func cls(p params) string {
 	if p.Streamed {
 		return "streamed"
+	}
+	if p.StaleStaging {
+		return "pre-downloaded|used-staging"
 	}
 	return "pre-downloaded"
 }
